@@ -76,6 +76,32 @@ def _render(e, env, func=None):
         return None
 
 
+def _name_form(e, func, var=None):
+    """Symbolic reading of a log-file-name expression: (format with every placeholder written %s, index expression or None) when the expression is
+    ``<fmt> % (self.path, <index>)`` / an f-string of the same shape / ``<fmt> % self.path`` / ``self.path``; locals are looked through.
+    The verdict built on it holds for every path and every index (no value is plugged in)."""
+    if func is not None:
+        e = resolve(e, func, keep={var} if var else ())
+    if src(e) in _PATH_TEXTS:
+        return "%s", None
+    fp = _fmt_pair(e)
+    if fp is None:
+        return None
+    fmt, args = fp
+    fmt = fmt.replace("%d", "%s").replace("%i", "%s")
+    if not args or src(args[0]) not in _PATH_TEXTS or len(args) > 2 or fmt.count("%s") != len(args):
+        return None
+    return fmt, (args[1] if len(args) == 2 else None)
+
+
+def _index_minus(a, b):
+    """constant value of  a - b  when the two index expressions differ by a constant for every value of their variables, else None"""
+    lc = lincmp(ast.Compare(left=a, ops=[ast.GtE()], comparators=[b]))
+    if lc is None or lc[0]:
+        return None
+    return -lc[1]
+
+
 def _order_after(call, state):
     """Typestate transfer for list-order operations."""
     a = call_attr(call)
@@ -182,11 +208,14 @@ def _s_rotate(ctx, S):
     removes = [(n, c) for n, c in node_calls(g, lambda c: call_name(c) in ("os.remove", "os.unlink")) if n in body_nodes]
     ctx.check(len(renames) == 1, "shift/rename-i-to-i-plus-1", q, f"{len(renames)} shifting renames in the loop (one expected)")
     for n, c in renames:
-        ok = len(c.args) == 2 and all(_render(c.args[0], {var: k}, f) == f"P.{k}" and _render(c.args[1], {var: k}, f) == f"P.{k + 1}" for k in (1, 2, 9, 10, 99))
+        # symbolic: same "<path>.<index>" format on both sides, source index is the loop variable, target index - source index == 1 for every i
+        a_, b_ = (_name_form(c.args[0], f, var), _name_form(c.args[1], f, var)) if len(c.args) == 2 else (None, None)
+        ok = bool(a_ and b_) and a_[0] == b_[0] == "%s.%s" and a_[1] is not None and b_[1] is not None and src(a_[1]) == var and _index_minus(b_[1], a_[1]) == 1
         ctx.check(ok, "shift/rename-i-to-i-plus-1", ctx.construct(q, "os.rename(<path.i>, <path.i+1>)"),
                   f"the shifting rename is not path.i -> path.(i+1): {src(c)} (a retained log is overwritten or the sequence gets a hole / wrong order)")
     for n, c in removes:
-        ok = len(c.args) == 1 and all(_render(c.args[0], {var: k}, f) == f"P.{k}" for k in (1, 7, 10))
+        a_ = _name_form(c.args[0], f, var) if len(c.args) == 1 else None
+        ok = bool(a_) and a_[0] == "%s.%s" and a_[1] is not None and src(a_[1]) == var
         ctx.check(ok, "retention/removes-file-i", ctx.construct(q, "os.remove(<path.i>)"), f"the file removed is not path.i: {src(c)}")
         asserts = edge_asserts(g, n)
         notnone = any((a := asserted_is(t, lab)) is not None and not a[2] and src(a[0]) == "self.maxRotatedFiles" and src(a[1]) == "None" for t, lab in asserts)
@@ -221,7 +250,8 @@ def _s_rotate(ctx, S):
     opens = [n for n, c in node_calls(g, lambda c: call_name(c) == "self._openFile")]
     ctx.check(len(finals) == 1 and bool(closes) and bool(opens), "sequence/close-rename-open", q, "rotate() does not close, rename the current file and reopen")
     for n, c in finals:
-        ok = len(c.args) == 2 and _render(c.args[0], {}, f) == "P" and _render(c.args[1], {}, f) == "P.1"
+        a_, b_ = (_name_form(c.args[0], f), _name_form(c.args[1], f)) if len(c.args) == 2 else (None, None)
+        ok = bool(a_ and b_) and a_ == ("%s", None) and ((b_[0] == "%s.1" and b_[1] is None) or (b_[0] == "%s.%s" and b_[1] is not None and src(b_[1]) == "1"))
         ctx.check(ok, "sequence/current-becomes-1", ctx.construct(q, "os.rename(<path>, <path.1>)"),
                   f"the current file is not renamed to path.1 (the slot freed by the shift): {src(c)}")
         ctx.check(g.must_precede(closes, [n], exc=False) is None, "sequence/close-rename-open", ctx.construct(q, "close before rename"),
